@@ -141,9 +141,15 @@ func (sdbh *SemaDBHandlers) HandleListCollections(w http.ResponseWriter, r *http
 		log.Error().Err(err).Msg("ListCollections failed")
 		return
 	}
-	colItems := make([]ListCollectionItem, len(collections))
-	for i, col := range collections {
-		colItems[i] = ListCollectionItem{Id: col.Id, VectorSize: col.IndexSchema["vector"].VectorVamana.VectorSize, DistanceMetric: col.IndexSchema["vector"].VectorVamana.DistanceMetric}
+	colItems := make([]ListCollectionItem, 0, len(collections))
+	for _, col := range collections {
+		// Collections created with the v2 API live in the same namespace but
+		// have no legacy vector index, they cannot be described here
+		vamanaParams, ok := legacyVectorIndex(col)
+		if !ok {
+			continue
+		}
+		colItems = append(colItems, ListCollectionItem{Id: col.Id, VectorSize: vamanaParams.VectorSize, DistanceMetric: vamanaParams.DistanceMetric})
 	}
 	resp := ListCollectionsResponse{Collections: colItems}
 	utils.Encode(w, http.StatusOK, resp)
@@ -155,6 +161,17 @@ func (sdbh *SemaDBHandlers) HandleListCollections(w http.ResponseWriter, r *http
 type contextKey string
 
 const collectionContextKey contextKey = "collection"
+
+// The v1 API only knows collections with a single vamana index on the "vector"
+// property. A collection created with the v2 API need not have one and the v1
+// handlers must not assume it is there.
+func legacyVectorIndex(col models.Collection) (*models.IndexVectorVamanaParameters, bool) {
+	schemaValue, ok := col.IndexSchema["vector"]
+	if !ok || schemaValue.Type != models.IndexTypeVectorVamana || schemaValue.VectorVamana == nil {
+		return nil, false
+	}
+	return schemaValue.VectorVamana, true
+}
 
 // Extracts collectionId from the URI and fetches the collection from the cluster.
 func (sdbh *SemaDBHandlers) CollectionURIMiddleware(next http.Handler) http.Handler {
@@ -173,6 +190,11 @@ func (sdbh *SemaDBHandlers) CollectionURIMiddleware(next http.Handler) http.Hand
 		}
 		if err != nil {
 			utils.Encode(w, http.StatusInternalServerError, map[string]string{"error": err.Error()})
+			return
+		}
+		if _, ok := legacyVectorIndex(collection); !ok {
+			errMsg := fmt.Sprintf("collection %s cannot be used with the v1 api", collectionId)
+			utils.Encode(w, http.StatusBadRequest, map[string]string{"error": errMsg})
 			return
 		}
 		// ---------------------------
